@@ -22,11 +22,14 @@ VARIABLES roleSel,   \* last SET SERVER ROLE (parser override), as in Router
           batch,     \* buffered Parse kinds of the open batch
           fwd,       \* sequence of statement kinds that reached a server
           replies,   \* sequence of reply kinds the client received: "rows"|"denied"|"intercepted"
-          n
+          n,
+          named,     \* statement caching on: kind of the statement the client's name "s" stands for in the pooler ("none")
+          pendName   \* kind a Parse of the open batch wants to register under that name ("none")
 
-pvars == <<roleSel, inTx, verdict, batch, fwd, replies, n>>
+pvars == <<roleSel, inTx, verdict, batch, fwd, replies, n, named, pendName>>
 
-PInit == roleSel = "default" /\ inTx = FALSE /\ verdict = "none" /\ batch = <<>> /\ fwd = <<>> /\ replies = <<>> /\ n = 0
+PInit == /\ roleSel = "default" /\ inTx = FALSE /\ verdict = "none" /\ batch = <<>> /\ fwd = <<>> /\ replies = <<>> /\ n = 0
+         /\ named = "none" /\ pendName = "none"
 
 \* the session's parser override (SET SERVER ROLE TO 'primary'|'replica'|'any' switches parsing off)
 ParserEffective == roleSel \notin {"primary", "replica", "any"}
@@ -38,7 +41,7 @@ Has(shape, k) == \E i \in DOMAIN shape : shape[i] = k
 SeqOf(shape) == [i \in 1..Len(shape) |-> shape[i]]
 
 SetRole(w) == /\ w \in {"primary", "replica", "any", "auto", "default"} /\ roleSel' = w /\ n' = n + 1
-              /\ UNCHANGED <<inTx, verdict, batch, fwd, replies>>
+              /\ UNCHANGED <<inTx, verdict, batch, fwd, replies, named, pendName>>
 
 \* Simple query: one verdict for the whole message.
 Query(shape) ==
@@ -48,10 +51,10 @@ Query(shape) ==
      ELSE IF PluginsRun /\ Has(shape, "intercept")
      THEN replies' = Append(replies, "intercepted") /\ UNCHANGED fwd
      ELSE replies' = Append(replies, "rows") /\ fwd' = fwd \o SeqOf(shape)
-  /\ UNCHANGED <<roleSel, inTx, verdict, batch>>
+  /\ UNCHANGED <<roleSel, inTx, verdict, batch, named, pendName>>
 
 \* Parse: verdict computed at Parse time and kept for the batch.
-Parse(k) ==
+ParseCore(k) ==
   /\ n < MaxMsgs /\ Len(batch) < 2 /\ k \in Kinds
   /\ batch' = Append(batch, k)
   /\ LET v == IF ~PluginsRun THEN "allow"
@@ -60,7 +63,13 @@ Parse(k) ==
                    ELSE IF verdict = "deny" THEN "deny"                 \* a Deny stays
                    ELSE IF v = "allow" /\ verdict # "none" THEN verdict
                    ELSE v
-  /\ UNCHANGED <<roleSel, inTx, fwd, replies, n>>
+
+Parse(k) == ParseCore(k) /\ UNCHANGED <<roleSel, inTx, fwd, replies, n, named, pendName>>
+
+\* The same Parse, giving the statement the name "s" (statement caching on): the name is registered at once in the
+\* client's map, for Binds later in the batch.
+ParseNamed(k) == /\ pendName = "none" /\ ParseCore(k) /\ pendName' = k
+                 /\ UNCHANGED <<roleSel, inTx, fwd, replies, n, named>>
 
 Sync ==
   /\ batch # <<>> /\ n' = n + 1
@@ -68,15 +77,28 @@ Sync ==
      ELSE IF verdict = "intercept" THEN replies' = Append(replies, "intercepted") /\ UNCHANGED fwd
      ELSE replies' = Append(replies, "rows") /\ fwd' = fwd \o batch
   /\ batch' = <<>> /\ verdict' = "none"
+  \* a batch that was refused or answered by a plugin never happened: the name it wanted to register is forgotten
+  \* (deviation refused_parse_stays_registered: it is kept)
+  /\ named' = IF pendName = "none" THEN named
+              ELSE IF verdict \in {"deny", "intercept"} /\ "refused_parse_stays_registered" \notin Dev THEN named
+              ELSE pendName
+  /\ pendName' = "none"
   /\ UNCHANGED <<roleSel, inTx>>
 
-Begin == /\ ~inTx /\ batch = <<>> /\ n < MaxMsgs /\ inTx' = TRUE /\ n' = n + 1 /\ UNCHANGED <<roleSel, verdict, batch, fwd, replies>>
-Commit == /\ inTx /\ batch = <<>> /\ inTx' = FALSE /\ n' = n + 1 /\ UNCHANGED <<roleSel, verdict, batch, fwd, replies>>
+\* A later batch Bind("s") Execute Sync: no Parse, hence no plugin verdict; the pooler makes sure the statement the name
+\* stands for exists on the server and runs it.
+BindNamed ==
+  /\ batch = <<>> /\ named # "none" /\ n < MaxMsgs /\ n' = n + 1
+  /\ fwd' = Append(fwd, named) /\ replies' = Append(replies, "rows")
+  /\ UNCHANGED <<roleSel, inTx, verdict, batch, named, pendName>>
+
+Begin == /\ ~inTx /\ batch = <<>> /\ n < MaxMsgs /\ inTx' = TRUE /\ n' = n + 1 /\ UNCHANGED <<roleSel, verdict, batch, fwd, replies, named, pendName>>
+Commit == /\ inTx /\ batch = <<>> /\ inTx' = FALSE /\ n' = n + 1 /\ UNCHANGED <<roleSel, verdict, batch, fwd, replies, named, pendName>>
 
 PNext == \/ \E w \in {"primary", "auto", "default"} : ~inTx /\ batch = <<>> /\ n < MaxMsgs /\ SetRole(w)
          \/ \E s \in Shapes : Query(s)
-         \/ \E k \in Kinds : Parse(k)
-         \/ Sync \/ Begin \/ Commit
+         \/ \E k \in Kinds : Parse(k) \/ ParseNamed(k)
+         \/ Sync \/ Begin \/ Commit \/ BindNamed
 
 PSpec == PInit /\ [][PNext]_pvars
 
